@@ -168,6 +168,14 @@ class C01(flow.Spec):
             dup |= {x for x in (n[5] or "").split(",") if x}
         if not dup:
             return None
+        # second manifestation (debug builds): the duplicate is not at last_seq, the relay sends
+        # both records and the receiver's process_complete_version fails its `len <= seqs`
+        # assertion -- recognised by the call site of the panic, with a duplicate present
+        pm = re.search(r" panics=(\S+)", steps[0])
+        if pm:
+            if set(pm.group(1).split(",")) == {"complete-version-len>seqs"}:
+                return "resurrect-duplicate-seq"
+            return None
         def strip(n):
             tbl = [c for c in n[0].split(",") if c and c.split("=")[0] not in dup]
             clk = [c for c in n[1].split(",") if c and c.split("/")[0] not in dup]
@@ -189,6 +197,8 @@ class C01(flow.Spec):
         m = re.match(r"acked=(\d+) rounds=(\d+)", steps[0].strip())
         if not m:
             return False
+        if " panics=" in steps[0]:
+            return False               # a node panicked while applying a batch
         nodes = []
         for st in steps[1:]:
             mm = re.match(self.NODE, st.strip())
